@@ -261,6 +261,7 @@ PROPS["C04"] = {
     "inject": C01_INJECT + [("emulator-2a-lib/src/machine/raw/mod.rs", "c09_seq.rs", "verif_c09"),
                             ("emulator-2a-lib/src/machine/raw/mod.rs", "c04_int.rs", "verif_c04")],
     "pregen": _pregen_c04,
+    "verus": "lemmas_compose",
     "groups": [{"match": "c04_entry|c01_reti", "flags": ["-Z", "stubbing", "--no-memory-safety-checks", "--no-overflow-checks"]},
                {"match": ".*", "flags": []}],
     "select": lambda allh, tier, seed: [h for h in allh if h.startswith("c04_") or h == "c01_reti" or h in ("c09_step", "c09_init")],
@@ -269,7 +270,7 @@ PROPS["C04"] = {
     "timeout": 900,
     "technique": "contract on the key trigger (postcondition + whole-state frame), interrupt clause of the clock edge over all certified control states, Hoare triples for the entry routine and RETI on the real clock edge, Kani/CBMC; transparency by composition (argued)",
     "level_text": "Proof of the per-call obligations: the key sets the flip-flop iff enabled and touches nothing else; an edge changes the flip-flop only at an end-of-instruction sampling word, takes the interrupt there iff pending and IE, clears it exactly then, and int-words are entered in no other way; the entry routine pushes FR and the next instruction's address, disables interrupts and continues at 2; RETI restores PC and FR. 'Whatever cycle the key is pressed in' follows because every non-sampling edge (incl. wait edges) keeps the flip-flop.",
-    "level_note": "Trusted: Kani/CBMC, rustc, C09's certificate (re-checked here: c09_step). The whole-run transparency statement (interrupted run == uninterrupted run for a register-preserving handler) is the composition of I.entry, the handler's own triples and I.reti: argued, not machine-checked. The case 'pending, IE clear, at a sampling word' is unconstrained (statement silent; the code drops the press).",
+    "level_note": "Trusted: Kani/CBMC, rustc, C09's certificate (re-checked here: c09_step). The composition step 'entry ; register-preserving handler ; RETI restores registers, flags incl. IE, SP and PC' is mechanised in Verus over the entry and RETI contracts (verus/lemma_compose.rs); that the rest of the run then coincides with the uninterrupted one follows from determinism of the edge (argued). The case 'pending, IE clear, at a sampling word' is unconstrained (statement silent; the code drops the press).",
     "samples": [{"obligation": "C04.E.int.flip-flop-kept-until-sampled", "text": "executed word is not an end-of-instruction branch ==> flip-flop' == flip-flop", "domain": "all certified (micro-address, IR) x fully symbolic data"}],
     "trusted": ["kani::stub stand-ins for three float-heavy Board operations inside the entry/RETI triples"],
     "assumptions": [],
@@ -315,6 +316,7 @@ def _select_c02(allh, tier, seed):
 PROPS["C02"] = {
     "inject": [("emulator-2a-lib/src/compiler.rs", "c02_translator.rs", "verif_c02")],
     "select": _select_c02,
+    "verus": "lemmas_compose",
     "groups": [{"match": ".*", "flags": ["-Z", "stubbing"]}],
     "functions": ["Translator::push_instruction", "Translator::push", "Translator::finish", "compile_instruction_mov", "from_bases_dst_and_src", "from_bases_and_src",
                   "from_base_and_reg", "from_base_and_two_regs", "relative_jump (incl. the returned closure)", "source_addr_mode / source_register / destination_addr_mode / destination_register / reg_to_u8"],
